@@ -65,7 +65,9 @@ def run(tier, seed):
 
 def replay(path):
     v = vlib.Verdict(PROP, "quick", 0, "model_checking")
-    sc.validate(v, "Trace_Tunnel", (vlib.SPEC / "Trace_Tunnel.cfg").read_text(), path, "replay")
+    head = vlib.read_ndjson(path)[:1]
+    mod = "Trace_Limiter" if head and head[0].get("scenario") == "limiter" else "Trace_Tunnel"
+    sc.validate(v, mod, (vlib.SPEC / (mod + ".cfg")).read_text(), path, "replay")
     v.add_cov(states=1, transitions=1)
     v.sample({"replayed": str(path)})
     v.finish()
